@@ -201,3 +201,52 @@ package fontscan
 //@   modifies *page
 //@   loop 1 invariant [middle-filled] uintIndexStart+1 <= index && index <= uintIndexEnd && uintIndexEnd <= 7 && uintIndexStart == start>>5 && uintIndexEnd == end>>5 && bitIndexStart == start&0x1f && bitIndexEnd == end&0x1f
 //@   loop 1 invariant [words] forall(j, 0, 8, (*page)[j] == ite(j == int(uintIndexStart), old((*page)[j]) | ((uint32(1)<<(uint32(31)-uint32(start&0x1f)+1)-1)<<uint32(start&0x1f)), ite(int(uintIndexStart) < j && j < int(index), uint32(0xFFFFFFFF), old((*page)[j]))))
+//
+// ---------------------------------------------------------------------------------------------
+// Property C14: cache invalidation invariants of FontMap. A method that changes the query or the script must leave the
+// candidate lists marked stale (!built); one that changes the database must also leave the rune cache empty.
+//@ trusted hash/maphash.MakeSeed
+//@   modifies nothing
+//
+//@ func runeLRU.Clear C14
+//@   mode int
+//@   ensures [empty] fresh(l.m) && len(l.m) == 0
+//@   ensures [list] l.head != nil && l.tail != nil && l.head.prev == l.tail && l.tail.next == l.head
+//@   modifies l.m; l.seed; l.head; l.tail
+//
+//@ func FontMap.SetScript C14
+//@   mode int
+//@   ensures [invalidates] !fm.built
+//@   ensures [script] fm.script == s
+//@   modifies fm.script; fm.built
+//
+//@ func FontMap.SetQuery C14
+//@   mode int
+//@   ensures [invalidates] !fm.built
+//@   ensures [aspect] fm.query.Aspect == query0.Aspect
+//@   ensures [families] implies(len(query0.Families) > 0, sameslice(fm.query.Families, query0.Families))
+//@   ensures [default-family] implies(len(query0.Families) == 0, len(fm.query.Families) == 1)
+//@   modifies fm.query; fm.built
+//
+//@ func FontMap.SetRuneCacheSize C14
+//@   mode int
+//@   ensures [size] fm.lru.maxSize == size
+//@   modifies fm.lru.maxSize
+//
+//@ func FontMap.AddFace C14
+//@   mode int
+//@   ensures [invalidates] !fm.built
+//@   ensures [cache-cleared] len(fm.lru.m) == 0
+//@   modifies unspecified
+//
+//@ func FontMap.AddFont C14
+//@   mode int
+//@   ensures [invalidates] implies(err == nil, !fm.built)
+//@   ensures [cache-cleared] implies(err == nil, len(fm.lru.m) == 0)
+//@   modifies unspecified
+//
+//@ func FontMap.UseSystemFonts C14
+//@   mode int
+//@   ensures [invalidates] implies(result == nil, !fm.built)
+//@   ensures [cache-cleared] implies(result == nil, len(fm.lru.m) == 0)
+//@   modifies unspecified
